@@ -526,7 +526,86 @@ pub fn model(r: &mut Rng, all_optional: bool, opt_num: usize, opt_den: usize) ->
             e.set(var, val);
         }
     }
+    relate(r, &mut e);
     e
+}
+
+/// One entry in five gets values that are *related to each other or to the
+/// entry's own syntax* - independent draws never produce these:
+/// a value that begins with its own (or another) `VAR=` once or twice; the
+/// same text under two variables (PROVIDES / REQUIRES, PKGPATH / PREV_PKGPATH,
+/// any two); a dependency, conflict or supersede pattern on the entry's own
+/// PKGBASE; FILE_NAME built from PKGNAME.  The values stay ordinary text, so
+/// every expectation is still "what was set is what is printed and parsed".
+pub fn relate(r: &mut Rng, e: &mut Entry) {
+    if !r.chance(1, 5) {
+        return;
+    }
+    let set_vars: Vec<usize> = (0..NVARS).filter(|&v| e.vals[v].is_some() && VARS[v].kind != Kind::I).collect();
+    if set_vars.is_empty() {
+        return;
+    }
+    let first_text = |e: &Entry, v: usize| -> String {
+        match &e.vals[v] {
+            Some(Val::S(s)) => s.clone(),
+            Some(Val::A(a)) => a.first().cloned().unwrap_or_default(),
+            _ => String::new(),
+        }
+    };
+    let put = |e: &mut Entry, v: usize, t: String, r: &mut Rng| match &mut e.vals[v] {
+        Some(Val::S(s)) => *s = t,
+        Some(Val::A(a)) => {
+            let at = r.below(a.len() + 1);
+            a.insert(at, t);
+        }
+        _ => match VARS[v].kind {
+            Kind::S => e.vals[v] = Some(Val::S(t)),
+            Kind::A => e.vals[v] = Some(Val::A(vec![t])),
+            Kind::I => {}
+        },
+    };
+    let clean = |t: String| -> String { t.chars().filter(|c| *c != '\n' && *c != '\r').collect() };
+    match r.below(6) {
+        0 => {
+            // own name in front, once or twice
+            let v = *r.pick(&set_vars);
+            let t = first_text(e, v);
+            let n = VARS[v].name;
+            let t = if r.chance(1, 2) { format!("{n}={t}") } else { format!("{n}={n}={t}") };
+            put(e, v, t, r);
+        }
+        1 => {
+            // another variable's whole line as a value
+            let (v, w) = (*r.pick(&set_vars), *r.pick(&set_vars));
+            let t = format!("{}={}", VARS[w].name, first_text(e, w));
+            put(e, v, clean(t), r);
+        }
+        2 => {
+            // the same text under two variables
+            let (a, b) = match r.below(3) {
+                0 => (os::PROVIDES, os::REQUIRES),
+                1 => (os::PKGPATH, os::PREV_PKGPATH),
+                _ => (*r.pick(&set_vars), *r.pick(&set_vars)),
+            };
+            let t = if e.vals[a].is_some() { first_text(e, a) } else { "/usr/pkg/lib/libfoo.so.1".to_string() };
+            if e.vals[a].is_none() {
+                put(e, a, t.clone(), r);
+            }
+            put(e, b, t, r);
+        }
+        3 | 4 => {
+            // a pattern on the entry's own PKGBASE
+            let name = first_text(e, os::PKGNAME);
+            let base = name.rsplit_once('-').map(|(b, _)| b.to_string()).unwrap_or(name.clone());
+            let suf = *r.pick(&[">=0.9", "<2", "-[0-9]*", "", ">1<3", "-*", "-extra>=1"]);
+            let v = *r.pick(&[os::DEPENDS, os::CONFLICTS, os::SUPERSEDES, os::DEPENDS]);
+            put(e, v, clean(format!("{base}{suf}")), r);
+        }
+        _ => {
+            let name = first_text(e, os::PKGNAME);
+            put(e, os::FILE_NAME, clean(format!("{name}.tgz")), r);
+        }
+    }
 }
 
 /// A compact complete entry for stream workloads: short values, so that a
@@ -575,6 +654,9 @@ pub fn compact_model(
             Some(Val::A(a)) => a.push(tail),
             slot => *slot = Some(Val::A(vec![tail])),
         }
+    }
+    if !tiny && !mb_last {
+        relate(r, &mut e);
     }
     e
 }
@@ -1236,11 +1318,21 @@ impl Stream {
 
 /// A well-formed stream of `n` compact entries.
 pub fn stream(r: &mut Rng, n: usize, opt_num: usize, opt_den: usize, tiny: bool) -> Stream {
-    let mut entries = vec![];
+    let mut entries: Vec<Entry> = vec![];
     for k in 0..n {
         // every other entry ends in a multi-byte character right before the separator
         let mb_last = k % 2 == 0 || r.chance(1, 3);
-        entries.push(compact_model(r, opt_num, opt_den, mb_last, tiny));
+        let e = compact_model(r, opt_num, opt_den, mb_last, tiny);
+        // one entry in six repeats an earlier one verbatim (a stream may list
+        // the same package twice; a collection that is keyed or de-duplicated
+        // by content or by PKGNAME would lose it)
+        if k > 0 && r.chance(1, 6) {
+            let j = r.below(k);
+            let dup: Entry = entries[j].clone();
+            entries.push(dup);
+        } else {
+            entries.push(e);
+        }
     }
     let texts = entries.iter().map(|e| e.print()).collect();
     Stream::from_texts(entries, texts, None)
